@@ -435,6 +435,10 @@ def render_accept(accept):
         return None
     parts = []
     for r in accept:
+        if r.get('pad'):
+            # a header beyond the moderate range: N more ranges for media types nobody offers (they change nothing)
+            parts.extend('%s/%s%d;q=%s' % (r['t'], r['s'], i, r['q']) for i in range(r['pad']))
+            continue
         txt = '%s/%s' % (r['t'], r['s'])
         # media type names are case-insensitive (RFC 9110 8.3.1)
         txt = {'upper': txt.upper(), 'title': txt.title()}.get(r.get('case'), txt)
@@ -1106,7 +1110,8 @@ def run_render_case(case):
     err = case['err']
     ctx = 'case=%r' % (case,)
     accept_text = render_accept(case['accept'])
-    ctx += '\n  Accept: %r' % (accept_text,)
+    ctx += '\n  Accept: %r' % (accept_text if accept_text is None or len(accept_text) < 600
+                              else '%s ...(%d characters)... %s' % (accept_text[:300], len(accept_text), accept_text[-100:]),)
     if err['kind'] == 'status':
         arg, code, line = status_ref(err['status'])
         harg = header_arg(err['headers'])
@@ -1234,12 +1239,16 @@ def _accept(draw):
     n = draw(st.sampled_from([1, 1, 2, 2, 3, 4, 1, 2, 0]))
     types = draw(st.lists(st.sampled_from(_ACCEPT_TYPES), min_size=n, max_size=n, unique=True))
     out = []
+    pad = draw(st.sampled_from([0] * 24 + [300, 4000, 9000]))  # 9000 ranges: a header of more than 128 KiB
     for t, s in types:
         q = draw(st.sampled_from(_QS))
         if (s.endswith('+json') or s.endswith('+xml')) and q is not None and float(q) == 0:
             q = '0.3'
         out.append({'t': t, 's': s, 'q': q, 'case': draw(st.sampled_from([None, None, None, None, 'upper', 'title'])),
                     'ws': [draw(st.sampled_from(_WS)), draw(st.sampled_from(_WS)), draw(st.sampled_from(['', ' ', ' ']))]})
+    if pad and out:
+        out.insert(draw(st.integers(0, len(out))), {'t': 'x-pad', 's': 'n', 'q': '0.5', 'case': None, 'ws': ['', '', ''], 'pad': pad})
+        out[0]['ws'] = list(out[0].get('ws') or ['', '', ''])
     return out
 
 
